@@ -87,6 +87,15 @@ structure FolderCfg where
   files : List FileCfg
 deriving DecidableEq, Repr
 
+/-- keys of a node entry that the node schema declares and the loader hands through as written: `revealed_to_red`,
+`start_up_countdown`, `shut_down_countdown`, `is_resetting` (each as the schema reads it; absent = the schema's default) -/
+structure NodeFlags where
+  revealed : Bool := false
+  startUpCountdown : Nat := 0
+  shutDownCountdown : Nat := 0
+  resetting : Bool := false
+deriving DecidableEq, Repr
+
 structure NodeCfg where
   kind : Kind
   hostname : String
@@ -94,6 +103,9 @@ structure NodeCfg where
   power : Option Power := none
   startUp : Option Nat := none
   shutDown : Option Nat := none
+  /-- the node's own `node_scan_duration` (`none` = key absent) -/
+  scan : Option Nat := none
+  flags : NodeFlags := {}
   dns : Option Ip := none
   gateway : Option Ip := none
   ip : Option Ip := none
@@ -265,6 +277,8 @@ structure NodeInv where
   software : List SoftInv
   users : List UserInv
   folders : List FolderCfg
+  /-- `revealed_to_red`, the two countdowns, `is_resetting` as built -/
+  flags : NodeFlags := {}
 deriving DecidableEq, Repr
 
 structure LinkInv where
@@ -822,7 +836,7 @@ def buildNode (d : DefaultsCfg) (n : NodeCfg) : Except Err NodeInv :=
       -- `int(node_cfg.get("start_up_duration", defaults_config.get("node_start_up_duration", 3)))` (repaired code)
       startUp := n.startUp.getD (d.nodeStartUp.getD defaultDuration),
       shutDown := n.shutDown.getD (d.nodeShutDown.getD defaultDuration),
-      scan := d.nodeScan.getD defaultScan, folderScan := d.folderScan, folderRestore := d.folderRestore,
+      scan := n.scan.getD (d.nodeScan.getD defaultScan), flags := n.flags, folderScan := d.folderScan, folderRestore := d.folderRestore,
       dns := n.dns, gateway := n.gateway, nics := powerOnNics p nics, acls := acls,
       routes := if net then n.routes.map routeOf else [],
       defaultRoute := if net then n.defaultRoute else none,
@@ -1064,7 +1078,7 @@ def declaredNode (d : DefaultsCfg) (n : NodeCfg) : NodeInv :=
     -- a duration the entry gives, else the `defaults:` section's, else 3
     startUp := n.startUp.getD (d.nodeStartUp.getD defaultDuration),
     shutDown := n.shutDown.getD (d.nodeShutDown.getD defaultDuration),
-    scan := d.nodeScan.getD defaultScan, folderScan := d.folderScan, folderRestore := d.folderRestore,
+    scan := n.scan.getD (d.nodeScan.getD defaultScan), flags := n.flags, folderScan := d.folderScan, folderRestore := d.folderRestore,
     dns := n.dns, gateway := n.gateway,
     nics := match n.kind with
       | .computer | .server | .printer =>
